@@ -1005,7 +1005,14 @@ class Interp:
                     # the receiver is still evaluated: a method of a non-object does not exist
                     recv = self.ev(node.func.value)
                     if V.is_val(recv) and not self.st.branch(Val.is_o(recv)):
-                        self.raise_(AttributeError, node.func.attr)
+                        # a value of a builtin type: the method exists iff that type defines it
+                        st_ = self.st
+                        for test, pytype in ((Val.is_s, str), (Val.is_i, int), (Val.is_f, float), (Val.is_b, bool),
+                                             (Val.is_t, tuple)):
+                            if hasattr(pytype, node.func.attr) and st_.branch(test(recv)):
+                                break
+                        else:
+                            self.raise_(AttributeError, node.func.attr)
                 args = [self.ev(a.value if isinstance(a, ast.Starred) else a) for a in node.args]
                 for k in node.keywords:
                     self.ev(k.value)
